@@ -573,6 +573,21 @@ def run(ctx):
                    "lanelet.py it calls, tied to the code by the correspondence relation coq/Corr/C09.v on every run",
                    "harness/props/c09.py (universe / sequence generator, abstract-pool oracle, Coq term printer)",
                    "CPython dict insertion order (model keeps association lists in insertion order; compared sorted)"]
+    ctx.trusted.insert(3, "harness/props/c09_src.py: parser of the syntax trees of Scenario._is_object_id_used / "
+                          "_mark_object_id_as_used / _mark_object_ids_as_used / generate_object_id (scenario.py) into the "
+                          "statement language of coq/Model/IdPoolSrc.v, regenerated on every run as coq/Gen/Src_idpool.v "
+                          "(fail-closed); C09_mark_one_is_source / C09_mark_all_is_source / C09_generate_is_source prove the "
+                          "parsed programs equal to mark_one / mark_all / generate of Model/IdPool.v; the meaning the "
+                          "interpreter gives to the accepted Python shapes is trusted; the other Scenario operations (add / "
+                          "remove per kind) are tied by correspondence only")
+    from props import c09_src
+    try:
+        changed = c09_src.generate()
+        ctx.notes.append(f"Gen/Src_idpool.v regenerated from the source ({'changed' if changed else 'unchanged'})")
+    except Exception as e:   # SourceShapeError, SyntaxError, OSError: the model is no longer shown to be the source
+        ctx.proof_breaks.append({"theorem": "source parser:Gen/Src_idpool.v (C09_mark_one_is_source / C09_mark_all_is_source "
+                                            "/ C09_generate_is_source)", "where": "harness/props/c09_src.py", "log": str(e)})
+        ctx.log(f"proof_broken theorem=C09_*_is_source (source parser: {e})")
     ctx.build_props(extra_targets=["Corr/C09.vo"])
     if ctx.tier == "thorough":
         ctx.coqchk()
